@@ -369,7 +369,7 @@ class ListGroupsRequest_v1(RequestStruct):
 
 class ListGroupsRequest_v2(RequestStruct):
     API_KEY = 16
-    API_VERSION = 1
+    API_VERSION = 2
     RESPONSE_TYPE = ListGroupsResponse_v2
     SCHEMA = ListGroupsRequest_v0.SCHEMA
 
